@@ -146,9 +146,12 @@ func (s *session) step(st *Step) {
 		s.note("TakeRedactableBytes")
 		e.fired(fRestart)
 		x := s.b.TakeRedactableBytes()
-		e.holdBytes(x, "TakeRedactableBytes()")
-		e.handoffBytes(x, "TakeRedactableBytes()")
 		s.out.Extra = append(s.out.Extra, "takeb="+string(x))
+		// the caller owns what it took, spare capacity included: appending
+		// to it must neither disturb the object nor be disturbed by it
+		x = append(x, " +appended by the caller"...)
+		e.holdBytes(x, "TakeRedactableBytes() result, appended to by the caller")
+		e.handoffBytes(x, "TakeRedactableBytes()")
 	case "poison":
 		e.stats.PoisonedBytes += s.b.VerifPoison(0x5A)
 	case "y":
